@@ -491,8 +491,14 @@ def check_case(acc: core.Acc, dev: dict) -> None:
     for num, clamp, dur, frames in sheets_spec:
         sheet_objs[num] = SheetSequence(
             [(fd, *(TexCoord(*c) for c in coords)) for fd, coords in frames], clamp, dur)
+    try:
+        flags_obj = VTFFlags(flagval)
+    except ValueError as exc:
+        # the header's flag field is 32 unsigned bits: every bit pattern is a value the format carries
+        acc.fail('meta', case, f'VTFFlags({flagval:#x}) cannot be constructed: {exc}', field='flags')
+        return
     kwargs = dict(version=(7, minor), ref=REFS[cfg['ref']], frames=nframes, bump_scale=BUMPS[cfg['bump']],
-                  sheet_info=sheet_objs, flags=VTFFlags(flagval), fmt=ImageFormats[fmt],
+                  sheet_info=sheet_objs, flags=flags_obj, fmt=ImageFormats[fmt],
                   thumb_fmt=ImageFormats[thumb], depth=depth)
 
     # -- construction
